@@ -32,10 +32,11 @@ CONSTANTS Chans,       \* subset of {"workflow", "action", "reusable", "config"}
           Tags,        \* explicit tags used by the generator (subset of AllTags \ {"none"})
           Depths,      \* nesting depths
           LongReps,    \* repetition counts of the long scalars
+          RecogAll,    \* recogniser-derived expression texts at every scalar position (FALSE: first scalar of each domain)
           ExprLen      \* `${{`-fragments: all sequences over ExprAlpha up to this length (at one position per domain)
 
 AllChans == {"workflow", "action", "reusable", "config"}
-AllMutKinds == {"scalar", "seq", "map", "alias", "anchored", "tagged", "merge", "key", "nest", "long", "expr", "root"}
+AllMutKinds == {"scalar", "seq", "map", "alias", "anchored", "tagged", "merge", "key", "nest", "long", "expr", "root", "recog"}
 AllTags == {"none", "!!str", "!!int", "!!float", "!!bool", "!!null", "!!binary", "!!timestamp", "!verif"}
 Outcomes == {"clean", "diag", "fatal"}
 \* what the PROPERTY allows on every channel, and what the DESIGN produces per channel (narrower; a difference
@@ -226,11 +227,13 @@ FM(tag, ps) == Frag("m", tag, "", <<>>, <<>>, ps, 0)                 \* ps: sequ
 FAlias(name, target) == Frag("a", "none", name, <<target>>, <<>>, <<>>, 0)   \* target: kind of the anchored node
 FNest(kind, n) == Frag("nest", "none", "", <<kind>>, <<>>, <<>>, n)
 FRep(tag, tok, n) == Frag("rep", tag, "", <<tok>>, <<>>, <<>>, n)
+\* scalar whose text is a letter-case transform of the joined tokens: c \in {"upper", "swap", "title"}
+FX(c, toks) == Frag("sx", "none", "", <<c>> \o toks, <<>>, <<>>, 0)
 Anch(f, name) == [f EXCEPT !.anchor = name]
 
 NullLike(f) == f.k = "s" /\ (f.tag = "!!null" \/ (f.tag = "none" /\ f.toks \in {<<"~">>, <<"null">>, <<"Null">>, <<"NULL">>}))
 KindOf(f) == CASE f.k = "s" -> IF NullLike(f) THEN "null" ELSE "s"
-               [] f.k = "rep" -> "s"
+               [] f.k \in {"rep", "sx"} -> "s"
                [] f.k = "q" -> "q"
                [] f.k = "m" -> "m"
                [] f.k = "a" -> "alias"
@@ -318,6 +321,119 @@ RootDocs == { <<"">>, <<"\n">>, <<"x">>, <<"~">>, <<"[a]">>, <<"[]">>, <<"{}">>,
               <<"on: push\njobs:\n  j:\n    runs-on: x\n    steps:\n      - run: |\n          @@EMOJI ${{ a.. }}\n">> }
 
 ----------------------------------------------------------------------------
+(* Value classes derived from the RECOGNISERS of the rules: every regular expression, prefix test, switch and
+   table lookup that interprets the TEXT of a scalar (rule_*.go, expr_sema.go) contributes the texts it recognises;
+   each is tried as it is and as near misses: every letter case (upper / swapped / title), truncated at every token
+   boundary, with a doubled token, and with leading / trailing garbage.  A `panic("unreachable")` behind such a
+   recogniser (rule_deprecated_commands.go, rule_shell_name.go, rule_events.go, expr_sema.go, expr_type.go) is
+   reached by exactly these values. *)
+Garbage == <<"x", " ", "::", "@", "/", "\n", "}}", "$", "{0}", ":", "-", "*", "@@NUL">>
+NearMiss(x) == {x} \cup Prefixes(x) \cup Suffixes(x) \cup Doubled(x)
+               \cup {Append(x, Garbage[j]) : j \in DOMAIN Garbage} \cup {<<Garbage[j]>> \o x : j \in DOMAIN Garbage}
+CaseForms == {"upper", "swap", "title"}
+RecogFrags(x) == {FS("none", v) : v \in NearMiss(x)} \cup {FX(c, x) : c \in CaseForms}
+                 \cup {FX(c, Append(x, "x")) : c \in CaseForms} \cup {FX(c, <<"x ">> \o x \o x) : c \in CaseForms}
+W(t) == <<t>>
+
+\* rule_deprecated_commands.go: ::(save-state|set-output|set-env)\s+name=ID::\S+ | ::(add-path)::\S+
+ScriptSeeds == { <<"echo ", "::", "set-output", " ", "name=", "foo", "::", "bar">>,
+                 <<"echo ", "::", "save-state", " ", "name=", "foo", "::", "bar">>,
+                 <<"echo ", "::", "set-env", "\t ", "name=", "_f-1", "::", "${{ github.sha }}">>,
+                 <<"echo ", "::", "add-path", "::", "/bin">>,
+                 <<"::", "add-path", "::", "a", "\n", "::", "set-output", " name=a::b">>,
+                 <<"echo ", "${{", " github.event.issue.title ", "}}">>,
+                 <<"echo ", "${{", " github.event.pull_request.head.ref ", "}}", " ", "${{", " x">> }
+\* rule_action.go: ./local | docker://image:tag | owner/repo(/path)@ref, popular actions table, github-script
+UsesSeeds == { <<"docker://", "alpine", ":", "3.8">>, <<"docker://", "ghcr.io/", "a/b", ":", "1", ":", "2">>, <<"docker://">>,
+               <<"./", "act">>, <<"./", ".github/actions/", "x">>, <<".", "/">>, <<"..", "/", "x">>,
+               <<"actions", "/", "checkout", "@", "v4">>, <<"actions", "/", "github-script", "@", "v7">>,
+               <<"actions", "/", "setup-node", "/", "sub", "@", "v4">>, <<"owner", "/", "repo", "@", "0123456789abcdef0123456789abcdef01234567">>,
+               <<"owner", "@", "ref">>, <<"/", "repo", "@", "ref">>, <<"owner", "/", "@", "ref">>, <<"@">>, <<"a", "/", "b", "@", "c", "@", "d">> }
+\* rule_workflow_call.go: ./path(no @) | owner/repo/path@ref
+CallUsesSeeds == { <<"./", ".github/workflows/", "callee.yml">>, <<"./", "x.yml", "@", "v1">>, <<"./">>, <<".", "x", "/", "y", "/", "z", "@", "r">>,
+                   <<"owner", "/", "repo", "/", "path.yml", "@", "v1">>, <<"owner", "/", "repo", "@", "v1">>, <<"owner", "/", "/", "p", "@", "v">>,
+                   <<"/", "r", "/", "p", "@", "v">>, <<"o", "/", "r", "/", "@", "v">>, <<"o", "/", "r", "/", "p", "@">>, <<"@", "/", "/", "@">> }
+\* rule_events.go: robfig/cron specs, descriptors, time zone prefixes
+CronSeeds == { <<"TZ=", "UTC", " ", "0 0", " ", "* * *">>, <<"CRON_TZ=", "Asia/Tokyo", " ", "*/5 * * * *">>, <<"@", "every", " ", "1h", "30m">>,
+               <<"@", "yearly">>, <<"@", "reboot">>, <<"*/", "0", " ", "* * * *">>, <<"60", " ", "24", " ", "32", " ", "13", " ", "8">>,
+               <<"1-0", " ", "* * * *">>, <<"0", "/", "0", " ", "* * * *">>, <<"?", " ", "?", " ", "L", " ", "W", " ", "#">>,
+               <<"* * * * *", " ", "*">>, <<"* * * *">>, <<"0 0 31 2 *">>, <<"jan", " ", "feb", " ", "mon", " ", "JAN-DEC", " ", "SUN-SAT">>,
+               <<"99999999999999999999", " ", "* * * *">>, <<"-1", " ", "* * * *">>, <<"1,", ",2", " ", "* * * *">>, <<"*", "-", "1", " ", "* * * *">> }
+\* rule_shell_name.go / rule_pyflakes.go / rule_shellcheck.go: names, custom shells with {0}, "python " / "bash " / "sh " prefixes
+ShellSeeds == { W("bash"), W("pwsh"), W("python"), W("sh"), W("cmd"), W("powershell"), <<"bash", " ", "{0}">>, <<"python", " ", "-u", " ", "{0}">>,
+                <<"sh", " ", "-e", " ", "{0}">>, <<"{", "0", "}">>, <<"perl", " ", "{0}">>, <<"bash", " ", "--noprofile", " ", "-eo pipefail">>,
+                <<"python", "3">>, <<"${{", " matrix.shell ", "}}">>, <<"cmd", " ", "/c", " ", "{0}">> }
+\* glob.go: character classes, escapes, wildcards, negation
+GlobSeeds == { <<"[", "a", "-", "z", "]">>, <<"[", "z", "-", "a", "]">>, <<"[", "]">>, <<"[", "!", "a", "]">>, <<"\\", "[">>, <<"a", "\\">>,
+               <<"**", "/", "*", ".", "js">>, <<"!", "**", "/", "x">>, <<"!", "!">>, <<"a", "+", "?">>, <<"+">>, <<"?", "*", "+">>,
+               <<"a", " ", "b">>, <<"a", "~", "^", ":", "b">>, <<"refs", "/", "heads", "/", "**">>, <<"v", "[0-9]", "+", ".", "[0-9]", "+">> }
+PermSeeds == { W("read"), W("write"), W("none"), <<"read", "-", "all">>, <<"write", "-", "all">>, W("admin"), <<"read", "|", "write">> }
+EventSeeds == { <<"pull", "_", "request", "_", "target">>, <<"workflow", "_", "dispatch">>, <<"repository", "_", "dispatch">>,
+                <<"workflow", "_", "call">>, <<"workflow", "_", "run">>, W("schedule"), W("push"), <<"issue", "_", "comment">>,
+                <<"merge", "_", "group">>, W("check_run"), W("unknown_event") }
+InputTypeSeeds == { W("string"), W("number"), W("boolean"), W("choice"), W("environment"), W("bool"), W("object") }
+IdSeeds == { <<"a", "-", "b", "_", "1">>, <<"_">>, <<"-", "a">>, <<"1", "a">>, <<"a", ".", "b">>, <<"a", " ", "b">>, W("build"), W("prep") }
+RegexSeeds == { <<"(", "?i", ")", "a">>, <<"(", "?P<n>", "a", ")">>, <<"a", "{", "1000", "}">>, <<"a", "{", "1001", "}">>, <<"[", "[:alpha:]", "]">>,
+                <<"\\", "p{Greek}">>, <<"\\", "C">>, <<"(", "?=", "a", ")">>, <<"a", "**">>, <<"\\", "1">>, <<"(", "(", "(", "a", ")", ")", ")">> }
+DomSeeds(dom) ==
+  CASE dom = "script" -> ScriptSeeds
+    [] dom = "uses" -> UsesSeeds
+    [] dom = "call-uses" -> CallUsesSeeds
+    [] dom = "cron" -> CronSeeds
+    [] dom = "shell" -> ShellSeeds
+    [] dom \in {"glob-ref", "glob-path"} -> GlobSeeds
+    [] dom = "permission" -> PermSeeds
+    [] dom = "event-name" -> EventSeeds
+    [] dom = "input-type" -> InputTypeSeeds
+    [] dom = "inherit" -> {W("inherit")}
+    [] dom \in {"id", "needs-id"} -> IdSeeds
+    [] dom = "regex" -> RegexSeeds
+    [] dom = "bool" -> {W("true"), W("false")}
+    [] dom = "int" -> {W("0"), <<"-", "1">>, <<"0x", "1f">>, <<"2147483648">>}
+    [] dom = "float" -> {<<"1", ".", "0">>, <<".", "inf">>, <<"1", "e", "5">>}
+    [] OTHER -> {}
+
+\* template / string positions whose text a rule interprets, recognised by the tail of the schema position
+Tail1(s) == IF Len(s) >= 1 THEN s[Len(s)] ELSE ""
+Tail2(s) == IF Len(s) >= 2 THEN s[Len(s) - 1] ELSE ""
+IsSite(s, a) == Tail1(s) = a \/ (Tail1(s) = "[]" /\ Tail2(s) = a)
+RunnerSeeds == { <<"ubuntu", "-", "latest">>, <<"windows", "-", "2022">>, <<"macos", "-", "14", "-", "xlarge">>, <<"self", "-", "hosted">>,
+                 W("windows"), W("macos"), W("linux"), W("x64"), W("arm64"), W("gpu"), <<"ubuntu", "-", "latest", "-", "4", "-", "cores">>,
+                 <<"${{", " matrix.os ", "}}">>, <<"ubuntu", "-", "${{", " matrix.v ", "}}">> }
+TypeSeeds == { W("opened"), W("completed"), W("published"), W("created"), <<"ready", "_", "for", "_", "review">>, W("unknown-type") }
+ImageSeeds == { <<"docker://", "alpine", ":", "3">>, <<"ghcr.io/", "o/i", ":", "tag">>, <<"node", ":", "18", "@", "sha256:", "abc">>, <<":", "tag">>, <<"img", ":">>,
+                <<"${{", " matrix.image ", "}}">> }
+UsingSeeds == { <<"node", "20">>, <<"node", "16">>, W("node"), W("composite"), W("docker"), <<"node", "2x">> }
+BoolTextSeeds == { W("true"), W("false"), W("yes"), W("1") }
+SiteSeeds(s) ==
+  IF IsSite(s, "runs-on") \/ IsSite(s, "labels") THEN RunnerSeeds
+  ELSE IF IsSite(s, "types") THEN TypeSeeds
+  ELSE IF Tail1(s) = "image" \/ Tail1(s) = "container" \/ Tail2(s) = "services" THEN ImageSeeds
+  ELSE IF Tail1(s) = "using" THEN UsingSeeds
+  ELSE IF Tail1(s) \in {"default", "required"} THEN BoolTextSeeds
+  ELSE IF IsSite(s, "ports") THEN { <<"80", ":", "8080", "/", "tcp">>, <<"${{", " 1 ", "}}", ":", "1">> }
+  ELSE IF Tail1(s) \in {"icon", "color"} THEN { W("activity"), W("blue"), <<"gray", "-", "dark">> }
+  ELSE IF Tail1(s) \in {"main", "pre", "post", "entrypoint", "working-directory"} THEN { <<"..", "/", "x">>, <<"/", "abs">>, <<".", "/", "a", "/", "..", "/", "b">> }
+  ELSE {}
+
+\* expression texts: every special function, context and operator class that expr_sema.go / expr_type.go / expr_insecure.go
+\* switch on (the harness writes them in every letter case through FX)
+ExprTexts == << "always()", "success() && failure() || cancelled()", "!cancelled()", "contains(github.ref, 'x')", "contains(fromJSON('[1]'), 1)",
+                "startsWith('a', 1)", "endsWith(null, true)", "format('{0}{1}', 1)", "format('{', 1)", "format('{0', 1)", "format('}}{0}{{', 1)",
+                "format('{{0}}')", "format('{9999999999}', 1)", "format('{-1}', 1)", "format(github.ref)", "format()", "join(github.event.*.x, ',')",
+                "join(1)", "toJSON(github)", "fromJSON('')", "fromJSON('{')", "fromJSON('[1,')", "fromJSON('null')",
+                "fromJSON('{\"a\":{\"A\":[1,\"x\",null,{}]}}').a.a[0]",
+                "fromJSON('1e999')", "fromJSON(github.ref).x.*.y", "hashFiles('**/x', 1)", "hashFiles()", "unknownFunc()", "github['event']['x']", "github['']",
+                "github.*", "github.event.*.*", "github.event.issue.title", "github.event.pull_request.head.ref", "github.event.commits.*.message",
+                "steps.x.outputs['a']", "steps.*.outputs", "matrix.*", "matrix.os.x", "needs.*.outputs.*", "needs.prep.result", "secrets.GITHUB_TOKEN",
+                "secrets.github_x", "secrets.*", "env.x", "vars.x", "vars.DEPLOY_ENV", "inputs.x", "inputs.*", "jobs.x.outputs.y", "runner.os", "job.services.*.ports.*",
+                "strategy.job-index", "github.event == github.event", "github.event < 1", "fromJSON('[]') == fromJSON('{}')", "null == 0", "'a' < 1", "true > false",
+                "github.*  == 1", "!0", "!!github", "0x1F", "1e3", "-1", "1.", ".5", "1e", "''''", "'a' && 'b' || !'c'", "((((1))))", "(", "a.", "a[", "a[1", "a(1,", "a.b.c.d.e.f.g.h",
+                "1 == 1 == 1", "a ? b : c", "a && || b", "NaN", "Infinity", "null.x", "true()", "always", "github.event.inputs.x", "matrix['a']['b'].*['c']" >>
+ExprWrap(dom, t) == IF dom = "ifcond" THEN {<<t>>, <<"${{", " ", t, " ", "}}">>, <<"${{", " ", t, " ", "}}", " && ", "${{", " true ", "}}">>}
+                    ELSE {<<"${{", " ", t, " ", "}}">>}
+
+----------------------------------------------------------------------------
 (* Generator *)
 VARIABLES ch, b, path, tc
 vars == <<ch, b, path, tc>>
@@ -353,7 +469,7 @@ H1 == "VERIFHOLE1"
 H2 == "VERIFHOLE2"
 SetHole(p, h) == [op |-> "set", path |-> p, v |-> h, st |-> ""]
 FrontAnchor(h) == [op |-> "ins", path |-> <<>>, at |-> 1, key |-> "x-anchors", case |-> "", val |-> [k |-> "s", v |-> h, st |-> ""]]
-TagOf(f) == IF f.k \in {"s", "rep", "q", "m"} THEN f.tag ELSE "none"
+TagOf(f) == IF f.k \in {"s", "rep", "sx", "q", "m"} THEN f.tag ELSE "none"
 
 Vec(mut, label, ops, holes, decos, exp) ==
   [prop |-> "C01", ch |-> ch, b |-> b, path |-> path, site |-> Site, tk |-> HereU.k, dom |-> DomHere,
@@ -403,6 +519,17 @@ EmitExpr == /\ "expr" \in MutKinds /\ tc = Nav /\ IsScalarPos
             /\ FirstDom(RootT, Doc, <<>>, DomHere) = path
             /\ \E x \in ExprFrags : tc' = ToJson(ReplaceVec("expr", "none", FS("none", x)))
             /\ UNCHANGED <<ch, b, path>>
+
+\* values derived from the recognisers of the rules
+EmitRecog ==
+  /\ "recog" \in MutKinds /\ tc = Nav /\ IsScalarPos
+  /\ \/ \E x \in DomSeeds(DomHere) \cup SiteSeeds(Site) : \E f \in RecogFrags(x) : tc' = ToJson(ReplaceVec("recog", f.k, f))
+     \/ /\ IF RecogAll THEN TRUE ELSE FirstDom(RootT, Doc, <<>>, DomHere) = path
+        /\ DomHere \in {"template", "script", "ifcond", "expr", "raw", "str", "bool", "int", "float"}
+        /\ \E j \in DOMAIN ExprTexts : \E x \in ExprWrap(DomHere, ExprTexts[j]) :
+             \/ tc' = ToJson(ReplaceVec("recog", "expr", FS("none", x)))
+             \/ \E c \in CaseForms : tc' = ToJson(ReplaceVec("recog", "expr-" \o c, FX(c, x)))
+  /\ UNCHANGED <<ch, b, path>>
 
 \* alias to an anchored node defined in front of everything else / alias to an enclosing node / undefined alias
 EmitAlias ==
@@ -476,7 +603,7 @@ EmitRoot ==
        tc' = ToJson([Vec("root", "raw", <<>>, <<>>, <<>>, "any") EXCEPT !.raw = r])
   /\ UNCHANGED <<ch, b, path>>
 
-Next == Start \/ Descend \/ EmitScalar \/ EmitSeq \/ EmitMap \/ EmitNest \/ EmitLong \/ EmitExpr \/ EmitAlias
+Next == Start \/ Descend \/ EmitRecog \/ EmitScalar \/ EmitSeq \/ EmitMap \/ EmitNest \/ EmitLong \/ EmitExpr \/ EmitAlias
         \/ EmitTagged \/ EmitAnchored \/ EmitMerge \/ EmitKey \/ EmitRoot
 Spec == Init /\ [][Next]_vars
 
